@@ -214,6 +214,26 @@ impl Property for C09Prop {
                 if let Err(why) = compare(&o, &expected, false) {
                     return fail("C09:at:runtime", format!("`{ftext}` on ({seq_text}, {i}): {why}"));
                 }
+                // partially constant routes: constant index on a run-time sequence, and a literal
+                // array with one run-time element indexed by a constant
+                stats.eval();
+                let text = format!("f := (s: {param_ty}) -> any {{ return s[{}]; }}; f({seq_text})", bound_text(Some(i)));
+                let o = run::run_text(&text, false);
+                if let Err(why) = compare(&o, &expected, true) {
+                    return fail("C09:at:constant-index", format!("`{text}`: {why}"));
+                }
+                if !is_str && n > 0 {
+                    for hole in [0, n - 1] {
+                        let mut parts: Vec<String> = elems.iter().map(lit::to_text).collect();
+                        let arg = std::mem::replace(&mut parts[hole], "x".to_string());
+                        let text = format!("f := (x: any) -> any {{ return [{}][{}]; }}; f({arg})", parts.join(", "), bound_text(Some(i)));
+                        stats.eval();
+                        let o = run::run_text(&text, false);
+                        if let Err(why) = compare(&o, &expected, true) {
+                            return fail("C09:at:literal-with-run-time-element", format!("`{text}`: {why}"));
+                        }
+                    }
+                }
                 Verdict::Pass
             }
             "slice" => {
@@ -302,6 +322,13 @@ impl Property for C09Prop {
                 };
                 if let Err(why) = compare(&o, &Ok(expected.clone()), false) {
                     return fail("C09:slice:runtime", format!("`{ftext}` on {shown}: {why}"));
+                }
+                // constant bounds on a run-time sequence
+                stats.eval();
+                let text = format!("f := (s: {param_ty}) -> {ret} {{ return s{suffix}; }}; f({seq_text})");
+                let o = run::run_text(&text, false);
+                if let Err(why) = compare(&o, &Ok(expected.clone()), true) {
+                    return fail("C09:slice:constant-bounds", format!("`{text}`: {why}"));
                 }
                 Verdict::Pass
             }
@@ -414,7 +441,7 @@ pub fn run(session: &Session) -> i32 {
         session.run_tapes(&C09, session.tier.of(40_000, 2_000_000), 40, 0);
     }
     session.finish(
-        "all arrays (distinct ints; mixed element types) of length 0..=max and all strings over {ASCII, 2-, 3-, 4-byte scalar} up to length 3 (+ samples up to max) x every index in [-n-3, n+3] plus 10 extreme i64 values x every (start, stop, step) with each bound absent or in [-n-2, n+2] or MIN/MAX (exhaustive), plus tape-generated longer sequences and random bounds; oracle = Python's slice.indices re-implemented on i128, `[]` for step 0, index ok iff -n <= i < n, std.len = number of scalars; folded route (literal text, incl. the static type of the slice admitting the value) and run-time route (function value called through create_call with the sequence and bounds as arguments; the function is declared to return the same kind as its argument). Non-trivial = a slice with at least one bound, an index on/next to a boundary or extreme, or a multi-byte string; distinct by case.",
+        "all arrays (distinct ints; mixed element types) of length 0..=max and all strings over {ASCII, 2-, 3-, 4-byte scalar} up to length 3 (+ samples up to max) x every index in [-n-3, n+3] plus 10 extreme i64 values x every (start, stop, step) with each bound absent or in [-n-2, n+2] or MIN/MAX (exhaustive), plus tape-generated longer sequences and random bounds; oracle = Python's slice.indices re-implemented on i128, `[]` for step 0, index ok iff -n <= i < n, std.len = number of scalars; folded route (literal text, incl. the static type of the slice admitting the value), partially constant routes (constant index / bounds on a run-time sequence; literal array with one run-time element) and run-time route (function value called through create_call with the sequence and bounds as arguments; the function is declared to return the same kind as its argument). Non-trivial = a slice with at least one bound, an index on/next to a boundary or extreme, or a multi-byte string; distinct by case.",
         true,
         &["exhaustive over the stated small scope only; longer sequences are sampled"],
     )
